@@ -68,6 +68,7 @@ type Contract struct {
 	Shared     bool
 	SplitRet   bool
 	SplitPaths bool
+	Extra      bool
 
 	obj     *types.Func
 	harness *ssa.Function
@@ -77,7 +78,7 @@ type Contract struct {
 	Text    []string // raw lines, for evidence
 }
 
-var reHead = regexp.MustCompile(`^(func|iface|lemma)\s+(.+)$`)
+var reHead = regexp.MustCompile(`^(func\+|func|iface|lemma)\s+(.+)$`)
 
 func parseContractFile(path string, pkgPath string) ([]*Contract, []string, error) {
 	data, err := os.ReadFile(path)
@@ -125,6 +126,11 @@ func parseContractFile(path string, pkgPath string) ([]*Contract, []string, erro
 		}
 		if m := reHead.FindStringSubmatch(body); m != nil {
 			cur = &Contract{Kind: m[1], Name: strings.TrimSpace(m[2]), PkgPath: pkgPath, File: path, Line: i + 1, Loops: map[int]*loopSpec{}}
+			if cur.Kind == "func+" {
+				// additional, verification-only contract for a function that already has one
+				cur.Kind = "func"
+				cur.Extra = true
+			}
 			out = append(out, cur)
 			cur.Text = append(cur.Text, body)
 			continue
@@ -228,6 +234,9 @@ func parseContractFile(path string, pkgPath string) ([]*Contract, []string, erro
 			cc.Name = strings.TrimSpace(n)
 			cc.Shared = len(names) > 1
 			cc.ID = sanitize(filepath.Base(pkgPath) + "_" + cc.Name)
+			if cc.Extra {
+				cc.ID += "_extra"
+			}
 			cc.Requires = append([]clause{}, c.Requires...)
 			cc.Ensures = append([]clause{}, c.Ensures...)
 			cc.Covers = append([]clause{}, c.Covers...)
